@@ -10,13 +10,14 @@ VARIABLE c
 
 Kinds == {"struct", "generic_struct", "unit_struct", "newtype_struct", "tuple_struct_generic", "alias", "generic_alias",
           "unit_enum", "enum_newtype", "enum_struct", "enum_mixed", "generic_enum", "enum_tag_dashed", "enum_tag_kw", "const"}
+\* underscore_digit: variant identifiers _2FA, _3dSecure, _1Tap (valid Rust; whatever a backend derives from them must still be an identifier)
 \* kw_py_edge: field names that are not keywords as written but become one when a backend normalises them (from_, in_, _return)
 \* datetime / bytes (type features): time::OffsetDateTime and Vec<u8> members: TypeScript, Go and Python give them custom
 \* (de)serialisation helpers whose text names the member's KEY; Kotlin / Swift / Scala refuse OffsetDateTime (out of scope there)
 \* unicode: variant wire names with a combining mark, a variation selector, a zero-width joiner, a non-ASCII letter
 \* kw_dashed / kebab_kw: keyword members next to dashed members in the same item (a dashed key switches Swift and Kotlin to a
 \* different printing path - CodingKeys / @SerialName - for all the members of the item)
-Namings == {"plain", "kw_swift", "kw_py", "kw_both", "kw_type", "kw_dashed", "kebab_kw", "dashed", "rename_all_kebab", "rename_all_upper", "digit", "quote", "unicode", "single_letter", "kw_py_edge"}
+Namings == {"plain", "kw_swift", "kw_py", "kw_both", "kw_type", "kw_dashed", "kebab_kw", "dashed", "rename_all_kebab", "rename_all_upper", "digit", "quote", "unicode", "single_letter", "kw_py_edge", "underscore_digit"}
 TypeFeatures == {"prim", "option", "vec_option", "map", "user", "generic", "override_lang", "serialized_as", "unit", "array", "nested", "boxed_self", "i64", "default_attr", "datetime", "bytes"}
 Decos == {"none", "swift_deco", "swift_decos2", "kotlin_deco", "redacted", "constraints", "item_serialized_as", "readonly"}
 Docs == {"none", "all", "multiline"}
@@ -44,7 +45,7 @@ InScope(r) ==
     /\ (~HasMembers(r.kind) => (r.n = 0 /\ r.naming \in {"plain", "kw_type"}))
     /\ (~HasTypes(r.kind) => r.tyf = "prim")
     /\ (r.tyf = "generic" => IsGeneric(r.kind))
-    /\ (r.naming \in {"digit", "quote", "unicode"} => IsEnum(r.kind))          \* promised for variant names only (`_` prefix, escaped literal)
+    /\ (r.naming \in {"digit", "quote", "unicode", "underscore_digit"} => IsEnum(r.kind))          \* promised for variant names only (`_` prefix, escaped literal)
     /\ (r.deco = "constraints" => IsGeneric(r.kind))
     /\ (r.deco = "readonly" => r.kind \in {"struct", "generic_struct", "enum_struct", "enum_mixed"})
     /\ (r.kind = "const" => (r.deco = "none"))
